@@ -133,6 +133,38 @@ Encode(pic, f, fho, d, dho) ==
   Dwt(Pad(pic, PaddedWidth(Width(pic), d, dho), PaddedHeight(Height(pic), d, dho)), f, fho, d, dho)
 Decode(co, w, h, f, fho, d, dho) == Crop(Idwt(co, f, fho, d, dho), w, h)
 
+(* ------------------------------ 15.3 / 15.2 the whole picture (state level) ------------- *)
+(* forward_wavelet_transform / inverse_wavelet_transform work on the three components of a  *)
+(* picture under ONE set of transform parameters; the sizes come from the state: luma_width *)
+(* x luma_height for Y, color_diff_width x color_diff_height for C1 and C2.  The two sizes  *)
+(* are independent of each other (4:4:4, 4:2:2, 4:2:0, odd luma sizes, anything): each      *)
+(* component is padded to ITS OWN padded size, so one may need padding when the other does  *)
+(* not.  sz = [lw, lh, cw, ch]; a picture / coefficient set is a function on CompNames.     *)
+CompNames == {"Y", "C1", "C2"}
+CompOrder == <<"Y", "C1", "C2">>
+CompW(sz, c) == IF c = "Y" THEN sz.lw ELSE sz.cw
+CompH(sz, c) == IF c = "Y" THEN sz.lh ELSE sz.ch
+NeedsPadding(w, h, d, dho) == PaddedWidth(w, d, dho) # w \/ PaddedHeight(h, d, dho) # h
+
+EncodeSized(a, w, h, f, fho, d, dho) == Dwt(Pad(a, PaddedWidth(w, d, dho), PaddedHeight(h, d, dho)), f, fho, d, dho)
+ForwardWaveletTransform(p, sz, f, fho, d, dho) ==
+  [c \in CompNames |-> EncodeSized(p[c], CompW(sz, c), CompH(sz, c), f, fho, d, dho)]
+InverseWaveletTransform(co, sz, f, fho, d, dho) ==
+  [c \in CompNames |-> Decode(co[c], CompW(sz, c), CompH(sz, c), f, fho, d, dho)]
+
+(* 15.5: picture_encode removes the offset 2^(depth-1) first, picture_decode clips and adds  *)
+(* it back last; dp = [y, c] = luma_depth, color_diff_depth.  Exact for in-range samples.    *)
+CompDepth(dp, c) == IF c = "Y" THEN dp.y ELSE dp.c
+Clip(v, lo, hi) == IF v < lo THEN lo ELSE IF v > hi THEN hi ELSE v
+RemoveOffset(p, dp) == [c \in CompNames |-> MapVals(p[c], LAMBDA v : v - 2 ^ (CompDepth(dp, c) - 1))]
+ClipAndOffset(p, dp) ==
+  [c \in CompNames |->
+     LET half == 2 ^ (CompDepth(dp, c) - 1) IN MapVals(p[c], LAMBDA v : Clip(v, 0 - half, half - 1) + half)]
+InRange(p, dp) == \A c \in CompNames : \A y \in 1..Height(p[c]) : \A x \in 1..Width(p[c]) :
+                    p[c][y][x] >= 0 /\ p[c][y][x] <= 2 ^ CompDepth(dp, c) - 1
+PictureEncodeOp(p, sz, dp, f, fho, d, dho) == ForwardWaveletTransform(RemoveOffset(p, dp), sz, f, fho, d, dho)
+PictureDecodeOp(co, sz, dp, f, fho, d, dho) == ClipAndOffset(InverseWaveletTransform(co, sz, f, fho, d, dho), dp)
+
 (* ============================ the property, on tables ================================== *)
 Reconstructs(pic, rec) == rec = pic
 (* expected band names per level *)
